@@ -5,6 +5,7 @@ import (
 	"encoding/json"
 	"fmt"
 	"os"
+	"os/exec"
 	"path/filepath"
 	"runtime"
 	"sort"
@@ -12,6 +13,7 @@ import (
 	"sync"
 	"sync/atomic"
 	"testing"
+	"time"
 
 	"github.com/aundis/formula"
 	"pgregory.net/rapid"
@@ -33,6 +35,8 @@ type workload struct {
 	G     int      `json:"goroutines"`
 	Iter  int      `json:"iterations"`
 	Procs int      `json:"gomaxprocs"`
+	Warm  bool     `json:"neutral_warmup,omitempty"` // see runWorkload
+	Cold  bool     `json:"cold_start,omitempty"`     // run as the first thing a fresh process does (TestC09ColdStart)
 }
 
 func writeCurrentCase(kind, property string, c interface{}) {
@@ -48,60 +52,79 @@ func writeCurrentCase(kind, property string, c interface{}) {
 	os.WriteFile(filepath.Join(dir, fmt.Sprintf("current_case.%d.json", i)), data, 0o644)
 }
 
-type seqBaseline struct {
-	eval   [][3]string // per tree: outcome per data variant
-	fields []string
-}
-
 // runWorkload executes the workload; returns a message on a wrong result and
 // the maximum number of goroutines observed inside Resolve on one tree at once.
+//
+// Nothing of the library runs sequentially before the goroutines do: phase A
+// has every goroutine parse every text at the same time (the copies of
+// goroutine 0 become the shared trees), phase B has them evaluate and analyse
+// the shared trees, and only afterwards is the sequential baseline computed
+// (on separately parsed copies) and compared with what the goroutines saw.
+// The first workload of a process therefore also meets every piece of lazily
+// initialised state in the library for the first time under concurrency.
 func runWorkload(w workload) (msg string, maxInflight int32, evals int64) {
 	prev := runtime.GOMAXPROCS(w.Procs)
 	defer runtime.GOMAXPROCS(prev)
-	n := len(w.Texts)
-	trees := make([]*formula.SourceCode, 0, n)
 	var texts []string
 	for _, q := range w.Texts {
-		t := textCase{Text: q}.text()
-		p := obs.Parse([]byte(t))
-		if !p.OK() {
-			return "HARNESS: workload text does not parse: " + t, 0, 0
-		}
-		trees = append(trees, p.Src)
-		texts = append(texts, t)
+		texts = append(texts, textCase{Text: q}.text())
 	}
-	// sequential baseline, computed on separately parsed copies so that the shared trees are
-	// touched for the first time by the concurrent goroutines (lazy per-node state would otherwise
-	// already be filled in)
-	base := seqBaseline{}
-	for _, tx := range texts {
-		tr := obs.Parse([]byte(tx)).Src
-		var row [3]string
-		for j := 0; j < 3; j++ {
-			r := formula.NewRunner()
-			if d := c08Data(j); d != nil {
-				r.SetThis(d)
-			}
-			v, e := outcomeKey(obs.Eval(r, context.Background(), tr.Expression))
-			row[j] = v + "|" + e
+	// phase A: concurrent parsing
+	parsed := make([][]obs.ParseOut, w.G)
+	{
+		start := make(chan struct{})
+		var wg sync.WaitGroup
+		for g := 0; g < w.G; g++ {
+			wg.Add(1)
+			go func(g int) {
+				defer wg.Done()
+				<-start
+				for _, tx := range texts {
+					parsed[g] = append(parsed[g], obs.Parse([]byte(tx)))
+				}
+			}(g)
 		}
-		base.eval = append(base.eval, row)
-		fs, err := formula.ResolveReferenceFields(tr)
-		sort.Strings(fs)
-		base.fields = append(base.fields, fmt.Sprintf("%v|%v", fs, err))
+		close(start)
+		wg.Wait()
+	}
+	trees := make([]*formula.SourceCode, 0, len(texts))
+	for i, tx := range texts {
+		for g := 0; g < w.G; g++ {
+			if !parsed[g][i].OK() || (g > 0 && obs.Dump(parsed[g][i].Src.Expression) != obs.Dump(parsed[0][i].Src.Expression)) {
+				if q := obs.Parse([]byte(tx)); !q.OK() {
+					return "HARNESS: workload text does not parse: " + tx, 0, 0
+				}
+				return fmt.Sprintf("goroutine %d: concurrent parse of %q gave %v %v, sequentially it parses (or goroutines got different trees)", g, tx, parsed[g][i].Err, parsed[g][i].Panic), 0, 0
+			}
+		}
+		trees = append(trees, parsed[0][i].Src)
+	}
+	if w.Warm {
+		// Optional neutral warm-up (every other cold start): undefined names only, so that sync.Map's
+		// internal promotion (its first lookups go through a mutex, which staggers the goroutines)
+		// is over before the barrier drops, without touching any builtin or conversion.
+		wt := obs.Parse([]byte("zz1 ?? zz2")).Src.Expression
+		for k := 0; k < 300; k++ {
+			obs.Eval(formula.NewRunner(), context.Background(), wt)
+		}
 	}
 	salted := make([]bool, len(trees))
 	for i, tx := range texts {
 		salted[i] = strings.Contains(tx, "salt")
 	}
-	type saltedResult struct {
-		ti, j int
-		salt  string
-		saltn int
-		got   string
+	type evalResult struct {
+		ti, j  int
+		salted bool
+		salt   string
+		saltn  int
+		got    string
 	}
-	var saltedMu sync.Mutex
-	var saltedResults []saltedResult
+	type fieldResult struct {
+		ti  int
+		got string
+	}
+	evalResults := make([][]evalResult, w.G)
+	fieldResults := make([][]fieldResult, w.G)
 	inflight := make([]int32, len(trees))
 	var maxSeen int32
 	var total int64
@@ -148,23 +171,14 @@ func runWorkload(w workload) (msg string, maxInflight int32, evals int64) {
 					atomic.AddInt32(&inflight[ti], -1)
 					atomic.AddInt64(&total, 1)
 					v, e := outcomeKey(out)
-					if salted[ti] && d != nil {
-						// per-call data: compared with a sequential re-evaluation afterwards
-						saltedMu.Lock()
-						if len(saltedResults) < 20000 {
-							saltedResults = append(saltedResults, saltedResult{ti, j, salt, saltn, v + "|" + e})
-						}
-						saltedMu.Unlock()
-					} else if got := v + "|" + e; got != base.eval[ti][j] {
-						report(fmt.Sprintf("goroutine %d: concurrent evaluation of %q (data variant %d) gave %s, sequentially it gives %s", g, texts[ti], j, got, base.eval[ti][j]))
-						return
+					if len(evalResults[g]) < 4000 {
+						evalResults[g] = append(evalResults[g], evalResult{ti, j, salted[ti] && d != nil, salt, saltn, v + "|" + e})
 					}
 					if (it+k)%3 == 0 {
 						fs, err := formula.ResolveReferenceFields(trees[ti])
 						sort.Strings(fs)
-						if got := fmt.Sprintf("%v|%v", fs, err); got != base.fields[ti] {
-							report(fmt.Sprintf("goroutine %d: concurrent field analysis of %q gave %s, sequentially %s", g, texts[ti], got, base.fields[ti]))
-							return
+						if len(fieldResults[g]) < 2000 {
+							fieldResults[g] = append(fieldResults[g], fieldResult{ti, fmt.Sprintf("%v|%v", fs, err)})
 						}
 						formula.ResolveReferenceFieldsNotLocal(trees[ti])
 					}
@@ -199,20 +213,66 @@ func runWorkload(w workload) (msg string, maxInflight int32, evals int64) {
 	}
 	close(start)
 	wg.Wait()
-	if firstMsg == "" {
-		for _, sr := range saltedResults {
-			d := c08Data(sr.j)
-			d["salt"], d["saltn"] = sr.salt, sr.saltn
-			r := formula.NewRunner()
-			r.SetThis(d)
-			v, e := outcomeKey(obs.Eval(r, context.Background(), obs.Parse([]byte(texts[sr.ti])).Src.Expression))
-			if want := v + "|" + e; want != sr.got {
-				firstMsg = fmt.Sprintf("concurrent evaluation of %q with salt %q gave %s, sequentially it gives %s", texts[sr.ti], sr.salt, sr.got, want)
-				break
+	if firstMsg != "" {
+		return firstMsg, atomic.LoadInt32(&maxSeen), atomic.LoadInt64(&total)
+	}
+	// phase C: the sequential truth, on separately parsed copies
+	fresh := make([]*formula.SourceCode, len(texts))
+	for i, tx := range texts {
+		fresh[i] = obs.Parse([]byte(tx)).Src
+	}
+	baseEval := map[[2]int]string{}
+	baseFields := map[int]string{}
+	nSalted := 0
+	for g := range evalResults {
+		for _, er := range evalResults[g] {
+			var want string
+			if er.salted {
+				if nSalted++; nSalted > 20000 {
+					continue
+				}
+				d := c08Data(er.j)
+				d["salt"], d["saltn"] = er.salt, er.saltn
+				r := formula.NewRunner()
+				r.SetThis(d)
+				v, e := outcomeKey(obs.Eval(r, context.Background(), fresh[er.ti].Expression))
+				want = v + "|" + e
+			} else {
+				key := [2]int{er.ti, er.j}
+				b, ok := baseEval[key]
+				if !ok {
+					r := formula.NewRunner()
+					if d := c08Data(er.j); d != nil {
+						r.SetThis(d)
+					}
+					v, e := outcomeKey(obs.Eval(r, context.Background(), fresh[er.ti].Expression))
+					b = v + "|" + e
+					baseEval[key] = b
+				}
+				want = b
+			}
+			if er.got != want {
+				what := fmt.Sprintf("data variant %d", er.j)
+				if er.salted {
+					what = fmt.Sprintf("salt %q", er.salt)
+				}
+				return fmt.Sprintf("goroutine %d: concurrent evaluation of %q (%s) gave %s, sequentially it gives %s", g, texts[er.ti], what, er.got, want), atomic.LoadInt32(&maxSeen), atomic.LoadInt64(&total)
+			}
+		}
+		for _, fr := range fieldResults[g] {
+			b, ok := baseFields[fr.ti]
+			if !ok {
+				fs, err := formula.ResolveReferenceFields(fresh[fr.ti])
+				sort.Strings(fs)
+				b = fmt.Sprintf("%v|%v", fs, err)
+				baseFields[fr.ti] = b
+			}
+			if fr.got != b {
+				return fmt.Sprintf("goroutine %d: concurrent field analysis of %q gave %s, sequentially %s", g, texts[fr.ti], fr.got, b), atomic.LoadInt32(&maxSeen), atomic.LoadInt64(&total)
 			}
 		}
 	}
-	return firstMsg, atomic.LoadInt32(&maxSeen), atomic.LoadInt64(&total)
+	return "", atomic.LoadInt32(&maxSeen), atomic.LoadInt64(&total)
 }
 
 func init() {
@@ -223,12 +283,97 @@ func init() {
 		}
 		// schedule-dependent: run the workload several times
 		for i := 0; i < 5; i++ {
-			if m, _, _ := runWorkload(c); m != "" {
+			if c.Cold {
+				if m, _, _ := runCold(c); m != "" {
+					return m
+				}
+			} else if m, _, _ := runWorkload(c); m != "" {
 				return m
 			}
 		}
 		return ""
 	})
+}
+
+// runCold runs the workload as the first thing a fresh process does: a child
+// process of this (race-enabled) test binary whose very first use of the
+// library is the concurrent phase of runWorkload.
+func runCold(w workload) (msg string, maxInflight int32, evals int64) {
+	raw, _ := json.Marshal(w)
+	ctx, cancel := context.WithTimeout(context.Background(), 5*time.Minute)
+	defer cancel()
+	cmd := exec.CommandContext(ctx, os.Args[0], "-test.run", "^TestC09ColdStart$", "-test.count=1", "-test.timeout=4m")
+	cmd.Env = append(os.Environ(), "VERIF_C09_COLD="+string(raw), "GORACE=halt_on_error=1 exitcode=66")
+	out, err := cmd.CombinedOutput()
+	text := string(out)
+	if ctx.Err() != nil {
+		return "", 0, 0 // no verdict from a child that ran out of time (a stalled machine): not a finding
+	}
+	if i := strings.Index(text, "WARNING: DATA RACE"); i >= 0 {
+		lines := strings.Split(text[i:], "\n")
+		if len(lines) > 14 {
+			lines = lines[:14]
+		}
+		return "race detector report in a fresh process whose first use of the library is concurrent:\n" + strings.Join(lines, "\n"), 0, 0
+	}
+	var res struct {
+		Msg   string
+		MaxIn int32
+		Evals int64
+	}
+	if i := strings.Index(text, "COLD-RESULT "); i >= 0 {
+		line := text[i+len("COLD-RESULT "):]
+		if k := strings.IndexByte(line, '\n'); k >= 0 {
+			line = line[:k]
+		}
+		if json.Unmarshal([]byte(line), &res) == nil {
+			return res.Msg, res.MaxIn, res.Evals
+		}
+	}
+	tail := text
+	if len(tail) > 1500 {
+		tail = tail[len(tail)-1500:]
+	}
+	return fmt.Sprintf("a fresh process whose first use of the library is concurrent died (%v):\n%s", err, tail), 0, 0
+}
+
+// TestC09ColdStart: lazily initialised shared state is met for the first time
+// by many goroutines at once - once per process, so each case is a process.
+func TestC09ColdStart(t *testing.T) {
+	if v := os.Getenv("VERIF_C09_COLD"); v != "" {
+		var w workload
+		if err := json.Unmarshal([]byte(v), &w); err != nil {
+			t.Fatalf("bad VERIF_C09_COLD: %v", err)
+		}
+		msg, maxIn, evals := runWorkload(w)
+		raw, _ := json.Marshal(map[string]interface{}{"Msg": msg, "MaxIn": maxIn, "Evals": evals})
+		fmt.Printf("COLD-RESULT %s\n", raw)
+		return
+	}
+	run := h.Begin("C09", "cold-start", "child processes of the race-enabled test binary, one per case: the first thing the process does with the library is a workload of 8-32 goroutines released by a barrier (GOMAXPROCS 16) that first parse, then evaluate and analyse the same formulas (the fixed texts covering every builtin, conversion and operator, rotated so that each case starts with a different group; 2 iterations), with and without a neutral warm-up of the name lookup; the sequential baseline is computed afterwards; oracle: race detector (halt_on_error) + equality with the sequential results; non-trivial: >=2 goroutines measured inside Resolve on one tree at once; distinct by workload")
+	defer run.End(t)
+	var quoted []string
+	for _, f := range fixedWorkloadTexts() {
+		quoted = append(quoted, mkTextCase(f, "").Text)
+	}
+	n := h.N(8, 96)
+	for v := 0; v < n; v++ {
+		if !h.Mine(int64(v)) || run.NViolations() > 0 {
+			continue
+		}
+		rot := (v * 5) % len(quoted)
+		w := workload{Texts: append(append([]string{}, quoted[rot:]...), quoted[:rot]...), G: []int{16, 32, 8}[v%3], Iter: 2, Procs: 16, Warm: v%2 == 1, Cold: true}
+		msg, maxIn, evals := runCold(w)
+		key, _ := json.Marshal(w)
+		for i := int64(0); i < evals-1; i++ {
+			run.Count(false, "")
+		}
+		run.CountKey(string(key), maxIn >= 2, fmt.Sprintf("cold G=%d warm=%v", w.G, w.Warm))
+		run.Sample("cold", map[string]interface{}{"goroutines": w.G, "neutral_warmup": w.Warm, "max_concurrent_on_one_tree": maxIn, "first_text": textCase{Text: w.Texts[0]}.text()})
+		if msg != "" {
+			run.Fail("c09", w, msg)
+		}
+	}
 }
 
 // fixedWorkloadTexts exercises every builtin and operator concurrently.
@@ -263,10 +408,7 @@ func TestC09Concurrent(t *testing.T) {
 	fixed := fixedWorkloadTexts()
 	var quoted []string
 	for _, f := range fixed {
-		if !obs.Parse([]byte(f)).OK() {
-			t.Fatalf("fixed workload text does not parse: %s", f)
-		}
-		quoted = append(quoted, mkTextCase(f, "").Text)
+		quoted = append(quoted, mkTextCase(f, "").Text) // not parsed here: the first parse happens inside the first workload
 	}
 	doRun := func(w workload, pending func(string)) {
 		writeCurrentCase("c09", "C09", w)
